@@ -440,6 +440,15 @@ fn drop_variants(thorough: bool) -> Vec<(Scenario, u32)> {
             v.push((s, b - 1));
         }
     }
+    // seven members: the LZIP reader's back-pressure wait is reached (found missing by the vacuity check on the
+    // back-pressure coverage counter)
+    for d in 0..=2 {
+        for workers in [1u32, 2] {
+            let mut s = reader("m7", Kind::RL, scen::stream_lzip(&[10, 20, 0, 30, 40, 5, 60]).0, None, workers, 4096);
+            s.drop_after = d;
+            v.push((s, b - 1));
+        }
+    }
     let (lzip3, _) = scen::stream_lzip(&[100, 3000, 5]);
     for d in 0..=3 {
         for workers in [1u32, 2] {
@@ -591,8 +600,8 @@ pub fn menu(prop: &str, thorough: bool) -> Vec<(Arc<Scenario>, u32)> {
         "C09" => {
             let mut v = fault_variants(thorough);
             // valid runs must succeed as well ("never reports success with part of the data missing")
-            v.extend(valid_readers(false).into_iter().filter(|(s, _)| matches!(s.workers, 2 | 0 | u32::MAX)).map(|(s, _)| (s, 1)));
-            v.extend(valid_writers(false).into_iter().filter(|(s, _)| matches!(s.workers, 2 | 0 | u32::MAX)).map(|(s, _)| (s, 1)));
+            v.extend(valid_readers(false).into_iter().filter(|(s, _)| matches!(s.workers, 2 | 0 | u32::MAX)).map(|(s, b)| (s, b.min(1))));
+            v.extend(valid_writers(false).into_iter().filter(|(s, _)| matches!(s.workers, 2 | 0 | u32::MAX)).map(|(s, b)| (s, b.min(1))));
             v.extend(mutant_variants(thorough));
             v
         }
